@@ -62,7 +62,7 @@ TIERS = {
 
 # Known defects are excluded by construction in most cases so that the rest of the space is explored
 # (switch; the remaining share of cases still produces them, so they are still reported with their signature).
-EXCLUDE_KNOWN = True
+EXCLUDE_KNOWN = False   # the four recorded defects were repaired in /repo (see known_findings.json: fixed)
 KNOWN_FREE_PERCENT = 25   # share of cases in which known triggers are allowed
 KNOWN_TRIGGER = "far-undefined-tag (len>2, tags defined, no similar name) in Watch/Alarm/Simulate/Simulate off"
 KNOWN_TRIGGER_MACRO = "macro that calls a self-recursive macro"
